@@ -149,31 +149,33 @@ Definition relay_hi (k : kcfg) (d : dev) (up : bool) (hi : bool) : dev :=
 (* supla_esp_gpio_rs_cancel_task *)
 Definition cancel_task (d : dev) : dev := upd_task d 0 0 0 TASK_INACTIVE.
 
-(* supla_esp_gpio_rs_set_relay *)
-Definition set_relay (k : kcfg) (d : dev) (value : Z) (cancel : bool) (stop_delay : bool) : dev :=
-  let d := if negb (button_req d) && (0 <? ac_step d) then
-             fl_clear (upd_pt (upd_cfgt (set_step d 0) 0 0 0 0) 0 0) FLAG_TILT_IS_SET
-           else d in
-  let t := counter k d in
-  let d := if cancel then cancel_task d else d in
-  let d := upd_relay d (up_on d) (down_on d) (start_time d) (stop_time d) None (clk d) (outs d) in
-  let '(d, delay_time) :=
-    if value =? RELAY_OFF then
-      (d, if stop_delay && (0 <? start_time d) && (stop_time d =? 0) && (start_time d <=? t)
-             && (u32 (t - start_time d) / 1000 <? STOP_DELAY_MS)
-          then u32 (STOP_DELAY_MS - u32 (t - start_time d) / 1000 + 1) else 0)
-    else
-      let d := upd_misc d value (now d) (clk d) in
-      let d := fl_clear (fl_clear (fl_clear d FLAG_CALIBRATION_FAILED) FLAG_MOTOR_PROBLEM) FLAG_CALIBRATION_LOST in
-      let other_up := negb (value =? RELAY_UP) in      (* the output of the opposite direction *)
-      let other_on := if other_up then up_on d else down_on d in
-      let d := if other_on then
-                 let d := relay_hi k d other_up false in upd_misc d (last_direction d) (now d) (clk d + REVERSE_PAUSE_US)
-               else d in
-      let t := if other_on then counter k d else t in
-      (d, if (start_time d =? 0) && (0 <? stop_time d) && (stop_time d <=? t)
-             && (u32 (t - stop_time d) / 1000 <? START_DELAY_MS)
-          then u32 (START_DELAY_MS - u32 (t - stop_time d) / 1000 + 1) else 0) in
+(* supla_esp_gpio_rs_set_relay, in three parts *)
+(* (1) a command that does not come from the auto-calibration itself aborts a running auto-calibration *)
+Definition sr_abort (d : dev) : dev :=
+  if negb (button_req d) && (0 <? ac_step d) then
+    fl_clear (upd_pt (upd_cfgt (set_step d 0) 0 0 0 0) 0 0) FLAG_TILT_IS_SET
+  else d.
+Definition disarm (d : dev) : dev := upd_relay d (up_on d) (down_on d) (start_time d) (stop_time d) None (clk d) (outs d).
+(* (2) stop delay / switching the opposite output off + start delay: returns the delay in ms *)
+Definition sr_delay (k : kcfg) (d : dev) (value : Z) (stop_delay : bool) (t : Z) : dev * Z :=
+  if value =? RELAY_OFF then
+    (d, if stop_delay && (0 <? start_time d) && (stop_time d =? 0) && (start_time d <=? t)
+           && (u32 (t - start_time d) / 1000 <? STOP_DELAY_MS)
+        then u32 (STOP_DELAY_MS - u32 (t - start_time d) / 1000 + 1) else 0)
+  else
+    let d := upd_misc d value (now d) (clk d) in
+    let d := fl_clear (fl_clear (fl_clear d FLAG_CALIBRATION_FAILED) FLAG_MOTOR_PROBLEM) FLAG_CALIBRATION_LOST in
+    let other_up := negb (value =? RELAY_UP) in      (* the output of the opposite direction *)
+    let other_on := if other_up then up_on d else down_on d in
+    let d := if other_on then
+               let d := relay_hi k d other_up false in upd_misc d (last_direction d) (now d) (clk d + REVERSE_PAUSE_US)
+             else d in
+    let t := if other_on then counter k d else t in
+    (d, if (start_time d =? 0) && (0 <? stop_time d) && (stop_time d <=? t)
+           && (u32 (t - stop_time d) / 1000 <? START_DELAY_MS)
+        then u32 (START_DELAY_MS - u32 (t - stop_time d) / 1000 + 1) else 0).
+(* (3) arm the delayed trigger, or switch *)
+Definition sr_act (k : kcfg) (d : dev) (value delay_time : Z) : dev :=
   if DELAY_THRESHOLD_MS <? delay_time then
     let d := upd_relay d (up_on d) (down_on d) (start_time d) (stop_time d)
                        (Some (value, clk d + delay_time * 1000, button_req d)) (clk d) (outs d) in
@@ -185,6 +187,13 @@ Definition set_relay (k : kcfg) (d : dev) (value : Z) (cancel : bool) (stop_dela
     if (k_add_margin k =? 0) && (cur_pos d =? 100) then d
     else set_button_req (relay_hi k d false true) false
   else set_button_req (relay_hi k (relay_hi k d true false) false false) false.
+Definition set_relay (k : kcfg) (d : dev) (value : Z) (cancel : bool) (stop_delay : bool) : dev :=
+  let d := sr_abort d in
+  let t := counter k d in
+  let d := if cancel then cancel_task d else d in
+  let d := disarm d in
+  let dd := sr_delay k d value stop_delay t in
+  sr_act k (fst dd) value (snd dd).
 
 (* supla_esp_gpio_rs_set_relay_delayed: the delayed-trigger timer fires *)
 Definition fire_delayed (k : kcfg) (d : dev) : dev :=
@@ -389,52 +398,64 @@ Definition report_block (k : kcfg) (d : dev) (t : Z) : dev :=
     upd_times d (up_time d) (down_time d) (last_time d) t
   else d.
 
-(* supla_esp_gpio_rs_timer_cb; in_move = supla_esp_board_is_rs_in_move at this callback *)
-Definition timer_cb (o : fpops) (k : kcfg) (d : dev) (in_move : bool) : dev :=
-  let t := counter k d in
-  let ae := autocal_enabled k d in
-  (* travel times in force; loss of the auto-calibration result *)
-  let d := if ae then
-             if (aot d =? 0) && (act d =? 0) then fl_clear (upd_pt d 0 0) FLAG_TILT_IS_SET else d
-           else
-             if negb (act d =? 0) || negb (aot d =? 0) || negb (ac_step d =? 0)
-             then set_step (fl_clear (upd_pt (upd_cfgt d (time1 d) (time2 d) 0 0) 0 0) FLAG_TILT_IS_SET) 0 else d in
-  let fo := if ae then aot d else time1 d in
-  let fc := if ae then act d else time2 d in
-  (* power-consumption detection *)
-  let d := if up_on d || down_on d then
-             if ae then
-               let det := if detected d then true else in_move in
-               let d := upd_cal d (ac_step d) (perform d) (button_req d) det in
-               if negb det && (u32 (t - start_time d) <? POWER_DETECT_US)
-               then upd_times d (up_time d) (down_time d) t (last_comm d) else d
-             else d
-           else upd_cal d (ac_step d) (perform d) (button_req d) false in
+(* supla_esp_gpio_rs_timer_cb in four stages; in_move = supla_esp_board_is_rs_in_move at this callback *)
+(* (1) travel times in force; loss of the auto-calibration result *)
+Definition cb_head (k : kcfg) (d : dev) : dev :=
+  if autocal_enabled k d then
+    if (aot d =? 0) && (act d =? 0) then fl_clear (upd_pt d 0 0) FLAG_TILT_IS_SET else d
+  else
+    if negb (act d =? 0) || negb (aot d =? 0) || negb (ac_step d =? 0)
+    then set_step (fl_clear (upd_pt (upd_cfgt d (time1 d) (time2 d) 0 0) 0 0) FLAG_TILT_IS_SET) 0 else d.
+Definition cb_fo (k : kcfg) (d : dev) : Z := if autocal_enabled k d then aot d else time1 d.
+Definition cb_fc (k : kcfg) (d : dev) : Z := if autocal_enabled k d then act d else time2 d.
+(* (2) power-consumption detection: while none is seen in the first 2 s the elapsed time is not counted *)
+Definition cb_power (k : kcfg) (d : dev) (in_move ae : bool) (t : Z) : dev :=
+  if up_on d || down_on d then
+    if ae then
+      let det := if detected d then true else in_move in
+      let d := upd_cal d (ac_step d) (perform d) (button_req d) det in
+      if negb det && (u32 (t - start_time d) <? POWER_DETECT_US)
+      then upd_times d (up_time d) (down_time d) t (last_comm d) else d
+    else d
+  else upd_cal d (ac_step d) (perform d) (button_req d) false.
+(* (3) accounting of the elapsed time; returns the travel times for the task processing *)
+Definition cb_account (o : fpops) (k : kcfg) (d : dev) (in_move : bool) (t fo fc : Z) : dev * Z * Z :=
   let el := u32 (t - last_time d) in
-  let '(d, fo, fc) :=
-    if up_on d then
-      let d := upd_times d (u32 (up_time d + el)) 0 (last_time d) (last_comm d) in
-      let d := if 0 <? up_time d then check_motor k d true in_move else d in
-      let '(d, again) := autocalibrate k d in_move in
-      let fo := if again then aot d else fo in
-      let d := calibrate_d o k d fo (up_time d) 100 in
-      (move_position_d o k d fo true in_move, fo, fc)
-    else if down_on d then
-      let d := upd_times d 0 (u32 (down_time d + el)) (last_time d) (last_comm d) in
-      let d := if 0 <? down_time d then check_motor k d false in_move else d in
-      let '(d, again) := autocalibrate k d in_move in
-      let fc := if again then act d else fc in
-      let d := calibrate_d o k d fc (down_time d) 10100 in
-      (move_position_d o k d fc false in_move, fo, fc)
-    else
-      let d := if ac_step d =? 0 then fl_clear d FLAG_CALIBRATION_IN_PROGRESS else d in
-      (upd_times d 0 0 (last_time d) (last_comm d), fo, fc) in
-  (* supla_esp_gpio_rs_check_if_autocal_is_needed *)
+  if up_on d then
+    let d := upd_times d (u32 (up_time d + el)) 0 (last_time d) (last_comm d) in
+    let d := if 0 <? up_time d then check_motor k d true in_move else d in
+    let da := autocalibrate k d in_move in
+    let d := fst da in
+    let fo := if snd da then aot d else fo in
+    let d := calibrate_d o k d fo (up_time d) 100 in
+    (move_position_d o k d fo true in_move, fo, fc)
+  else if down_on d then
+    let d := upd_times d 0 (u32 (down_time d + el)) (last_time d) (last_comm d) in
+    let d := if 0 <? down_time d then check_motor k d false in_move else d in
+    let da := autocalibrate k d in_move in
+    let d := fst da in
+    let fc := if snd da then act d else fc in
+    let d := calibrate_d o k d fc (down_time d) 10100 in
+    (move_position_d o k d fc false in_move, fo, fc)
+  else
+    let d := if ac_step d =? 0 then fl_clear d FLAG_CALIBRATION_IN_PROGRESS else d in
+    (upd_times d 0 0 (last_time d) (last_comm d), fo, fc).
+(* (4) supla_esp_gpio_rs_check_if_autocal_is_needed, task processing, report block *)
+Definition cb_tail (k : kcfg) (d : dev) (in_move : bool) (t fo fc : Z) : dev :=
   let d := if autocal_enabled k d && negb (autocal_done d) && (ac_step d =? 0)
            then upd_cal d (ac_step d) true (button_req d) (detected d) else d in
   let d := task_processing k d in_move fo fc in
   let d := report_block k d t in
   upd_times d (up_time d) (down_time d) t (last_comm d).
+Definition timer_cb (o : fpops) (k : kcfg) (d : dev) (in_move : bool) : dev :=
+  let t := counter k d in
+  let ae := autocal_enabled k d in
+  let fo := cb_fo k d in
+  let fc := cb_fc k d in
+  let d := cb_head k d in
+  let d := cb_power k d in_move ae t in
+  let a := cb_account o k d in_move t fo fc in
+  cb_tail k (fst (fst a)) in_move t (snd (fst a)) (snd a).
 
 (* supla_esp_gpio_rs_apply_new__times (save flag irrelevant here) *)
 Definition apply_new_times (k : kcfg) (d : dev) (ct ot : Z) : dev :=
